@@ -27,4 +27,13 @@ theorem pureAztec_no_hidden_state :
     Gen.Aztec.fact_globalWrites = [] ∧ Gen.Aztec.fact_aliasAssign = [] ∧ Gen.Aztec.fact_fixedArrays = [] ∧ Gen.Aztec.fact_receiverWrites = [] := by
   decide
 
+/-- The library routines these packages call are exactly the ones the models were written against (DESIGN §7, item 5):
+    a body that starts to use another routine — `math/bits.Div` instead of `big.Int.DivMod`, `hash/crc32`,
+    `bytes.TrimPrefix`, `strings.HasPrefix` — is outside what the model mirrors, whether or not an input shows it. -/
+theorem pureAztec_external_calls :
+    Gen.Root.fact_externalCalls = ["(image.Image).At", "(image.Image).Bounds", "(image.Image).ColorModel", "errors.New", "fmt.Errorf", "image.Rect", "math.Min"] ∧
+    Gen.Utils.fact_externalCalls = ["(*sync.Mutex).Lock", "(*sync.Mutex).Unlock", "image.Rect"] ∧
+    Gen.Aztec.fact_externalCalls = ["(*bytes.Buffer).String", "(*bytes.Buffer).WriteRune", "(*bytes.Buffer).WriteString", "fmt.Errorf", "fmt.Sprintf", "image.Rect"] := by
+  decide
+
 end BV.Props.PureAztec
